@@ -47,7 +47,7 @@ def parent(name):
     return name
 
 
-def reported_sets(ins, regs, flags, hot):
+def reported_sets(ins, regs, flags, hot, hb=None):
     """(read ids, read mem intervals, write ids, write mem intervals) from the lifted semantics; intervals on the pre-state."""
     from miasmx.tools import emul_helper
     affs = emul_helper.get_instr_expr(ins, exprgen.Int(O.CODE_ADDR + ins.l, 32), [])
@@ -56,8 +56,9 @@ def reported_sets(ins, regs, flags, hot):
         env.ids[r] = regs[r]
     for f, v in flags.items():
         env.ids[f] = v
+    hb = O.HOT_ADDR if hb is None else hb
     for j, bt in enumerate(hot):
-        env.mem[O.HOT_ADDR + j] = bt
+        env.mem[hb + j] = bt
     rid, rmem, wid, wmem = set(), [], set(), []
     # the consumer pattern of a data-flow analysis: the read sets in one traversal of the lifted result, the write sets in
     # a second traversal of the same object (a result that can only be traversed once yields empty write sets)
@@ -99,9 +100,28 @@ def covered(intervals, addr):
     return any(a <= addr < a + n for a, n in intervals)
 
 
-def mem_probe_addrs(inst, regs):
+def mem_probe_addrs(inst, regs, hb=None):
     """Byte addresses of the architectural memory operands of the instance (from the table's own templates)."""
     out = []
+    hb = O.HOT_ADDR if hb is None else hb
+    if inst['extra'].get('low'):
+        # 16-bit addressing: [bx+si+disp], sums modulo 2^16; string pointers are si / di; the stack stays 32-bit
+        P16 = {'bx': 'ebx', 'bp': 'ebp', 'si': 'esi', 'di': 'edi'}
+        m = re.search(r'\[(bx|bp|si|di)(?:\+(si|di))?([+-](?:0x)?[0-9a-f]+)?\]', inst['text'])
+        width = 1 if 'BYTE' in inst['text'] else (2 if re.search(r'\bWORD', inst['text']) else 4)
+        if m and not inst['extra'].get('string'):
+            b, i, d = m.groups()
+            ea = (regs[P16[b]] + (regs[P16[i]] if i else 0) + (int(d, 0) if d else 0)) & 0xffff
+            if inst['extra'].get('xlat'):
+                ea, width = (regs['ebx'] + (regs['eax'] & 0xff)) & 0xffff, 1
+            out += [(ea + k) & 0xffff for k in range(width)]
+        if inst['extra'].get('string'):
+            w = inst['size'] // 8
+            for b in inst['extra']['bases16']:
+                out += [((regs[b] & 0xffff) + k) & 0xffffffff for k in range(w)]
+        if inst['extra'].get('stack'):
+            out += [(regs['esp'] + k) & 0xffffffff for k in range(-4, 8)]
+        return [a for a in dict.fromkeys(out) if hb <= a < hb + O.HOT]
     m = re.search(r'\[([a-z]{3})(?:\+([a-z]{3})\*([1248]))?([+-]\d+)?\]', inst['text'])
     if m:
         b, i, s, d = m.groups()
@@ -167,12 +187,14 @@ def run_instances(sh, insts, nstates, seed):
             fp = None
             if sse:
                 fp = (bytes(rng.getrandbits(8) for _ in range(64)), bytes(rng.getrandbits(8) for _ in range(128)))
-            base = dict(regs=regs, flags=flags, hot=hot, fp=fp)
+            hb = c04.hot_base(inst, regs)
+            base = dict(regs=regs, flags=flags, hot=hot, fp=fp, hb=hb, low=c04.low_kind(inst, regs))
             perts = []
-            addr_regs = set(inst['bases'] + inst['idx'] + ['esp'])
+            addr_regs = set(inst['bases'] + inst['idx'] + ['esp'] + list(inst['extra'].get('bases16', ())))
+            idx_regs = set(inst['idx'] + list(inst['extra'].get('idx16', ())))
             for r in O.REGS:
                 vals = [regs[r] ^ 1, regs[r] ^ 0x80000000, (regs[r] + 0x01010100) & 0xffffffff] if r not in addr_regs else [regs[r] ^ 4, regs[r] + 8]
-                if r in inst['idx']:
+                if r in idx_regs:
                     vals = [regs[r] ^ 1, regs[r] ^ 2]
                 for v in vals[:2]:
                     r2 = dict(regs)
@@ -182,11 +204,11 @@ def run_instances(sh, insts, nstates, seed):
                 f2 = dict(flags)
                 f2[f] = f2.get(f, 0) ^ 1
                 perts.append(('flag:' + f, dict(regs=regs, flags=f2, hot=hot, fp=fp)))
-            for a in mem_probe_addrs(inst, regs)[:40]:
+            for a in mem_probe_addrs(inst, regs, hb)[:40]:
                 h2 = bytearray(hot)
-                h2[a - O.HOT_ADDR] ^= 0xff
+                h2[a - hb] ^= 0xff
                 if inst['extra'].get('popf'):
-                    h2[a - O.HOT_ADDR] = hot[a - O.HOT_ADDR] ^ 0x01 if a == regs['esp'] else hot[a - O.HOT_ADDR]
+                    h2[a - hb] = hot[a - hb] ^ 0x01 if a == regs['esp'] else hot[a - hb]
                 perts.append(('mem:%d' % a, dict(regs=regs, flags=flags, hot=bytes(h2), fp=fp)))
             if sse:
                 probe_fp = list(inst['extra']['fps']) + ['xmm5', 'mm6']
@@ -202,7 +224,7 @@ def run_instances(sh, insts, nstates, seed):
                     perts.append(('fp:' + name, dict(regs=regs, flags=flags, hot=hot, fp=(bytes(mmb), bytes(xmb)))))
             plan.append((inst, g, ins, base, perts, len(cases)))
             for st in [base] + [p[1] for p in perts]:
-                cases.append(dict(code=g, regs=[st['regs'][r] for r in O.REGS], eflags=O.pack_eflags(st['flags']), hot=st['hot'], fp=st['fp']))
+                cases.append(dict(code=g, regs=[st['regs'][r] for r in O.REGS], eflags=O.pack_eflags(st['flags']), hot=st['hot'], fp=st['fp'], low=base['low']))
     if not cases:
         return
     res = []
@@ -217,7 +239,8 @@ def run_instances(sh, insts, nstates, seed):
             continue
         sse = inst['extra'].get('sse', False)
         try:
-            rid, rmem, wid, wmem = reported_sets(ins, base['regs'], base['flags'], base['hot'])
+            hb = base['hb']
+            rid, rmem, wid, wmem = reported_sets(ins, base['regs'], base['flags'], base['hot'], hb)
         except Exception as e:
             sh.case(canon, False)
             sh.counters['lift_raises_or_ill_typed(C11)'] += 1
@@ -253,7 +276,7 @@ def run_instances(sh, insts, nstates, seed):
                         # differences other than the perturbed byte passing through
                         for q in range(O.HOT):
                             if o0[X][q] != o1[X][q]:
-                                if loc == 'mem:%d' % (O.HOT_ADDR + q) and o0[X][q] == base['hot'][q] and o1[X][q] == st['hot'][q]:
+                                if loc == 'mem:%d' % (hb + q) and o0[X][q] == base['hot'][q] and o1[X][q] == st['hot'][q]:
                                     continue
                                 dep = True
                                 break
@@ -318,11 +341,11 @@ def run_instances(sh, insts, nstates, seed):
         for q in range(O.HOT):
             if cpu0['hot'][q] != base['hot'][q]:
                 witnessed += 1
-                if not covered(wmem, O.HOT_ADDR + q):
+                if not covered(wmem, hb + q):
                     key = '%s/%s/write-omitted/mem' % (fam, form if not sse else '*')
                     if key not in seen_keys:
                         seen_keys.add(key)
-                        sh.violation(key, '%s (%s): the CPU modifies memory at 0x%x, not covered by the written cells %s' % (inst['text'], g.hex(), O.HOT_ADDR + q, wmem[:4]), wit)
+                        sh.violation(key, '%s (%s): the CPU modifies memory at 0x%x, not covered by the written cells %s' % (inst['text'], g.hex(), hb + q, wmem[:4]), wit)
                     break
         if sse:
             for i in range(8):
